@@ -11,7 +11,8 @@ from typing import Any, Final, Literal, Self
 
 from pymap.concurrent import Event, ReadWriteLock
 from pymap.context import subsystem
-from pymap.exceptions import MailboxHasChildren, NotSupportedError
+from pymap.exceptions import MailboxHasChildren, MailboxNotFound, \
+    NotSupportedError
 from pymap.flags import FlagOp
 from pymap.interfaces.message import CachedMessage
 from pymap.listtree import ListTree
@@ -502,7 +503,9 @@ class MailboxSet(MailboxSetInterface[MailboxData]):
         try:
             self._layout.add_folder(name, self.delimiter)
         except FileExistsError as exc:
-            raise KeyError(name) from exc
+            raise ValueError(name) from exc
+        except FileNotFoundError as exc:
+            raise MailboxNotFound(name) from exc
         path = self._layout.get_path(name, self.delimiter)
         async with UidList.with_init(path) as uidl:
             global_uid = uidl.global_uid
